@@ -112,14 +112,16 @@ def run(tier):
     core.DEFAULT_FIELD_DIV = False
     run = Run(PROP, tier, 'proof')
     h = build()
+    msyn = h.monomorphise(['i32', 'f32'], bound='<S: BaseNum>', method_syntax='only', soft=True)
     mono = h.monomorphise(['i32', 'u8', 'f32', 'f64'], bound='<S: BaseNum>') if tier == 'thorough' else []
     S, inv, meta = facts.extract(PROP, h.src())
-    report_dropped(run, meta)
+    report_dropped(run, meta, h)
     from c17 import check_left
     run_specs(run, S, h, custom={'centroid': check_centroid, 'left': check_left})
     run.floor('roots', len(run.roots), len(h.specs))
     if mono:
         run.notes['monomorphic_instantiations'] = {'types': ['i32', 'u8', 'f32', 'f64'], 'roots': len(mono)}
+    run.notes['monomorphic_method_syntax_roots'] = len([n_ for n_ in msyn if n_ in run.roots])
     return run.finish(
         explanation='For Point1..3: +Vector, -Vector, Point-Point in all four operand forms, the assignment forms, scalar *,/,% (both receiver forms and assignments), both ElementWise impls, origin, from_vec/to_vec, dot, midpoint = p + (q-p)/2, sum/product, new/from_value, Point3::to_homogeneous/from_homogeneous are summarised from MIR and compared component-wise with the definitions; the affine laws (p+v)-p = v, p+(q-p) = q, from_vec(to_vec p) = p and from_homogeneous(k to_homogeneous(p)) = p are decided on the composed code. centroid: the summary must be from_vec(fold(points.iter(), zero, closure)/cast(len)) with the closure summarised separately as acc + p.to_vec().',
         trusted_base=['rustc nightly type checking / trait resolution / MIR construction', 'mirsum abstract interpreter and models', 'Iterator::fold over a slice iterator is the left fold (not interpreted)', 'rules/algebra.py', 'field semantics of + - * /'],
